@@ -8,6 +8,7 @@ use std::panic::{catch_unwind, AssertUnwindSafe};
 
 mod actor;
 mod cluster;
+mod fullstack;
 mod faulty;
 mod group;
 mod node;
@@ -31,6 +32,7 @@ fn new_domain(name: &str, params: &[&str]) -> Option<Box<dyn Domain>> {
         "group" => Some(Box::new(group::GroupDomain::new(params))),
         "actor" => Some(Box::new(actor::ActorDomain::new(params))),
         "cluster" => Some(Box::new(cluster::ClusterDomain::new(params))),
+        "full" => Some(Box::new(fullstack::FullDomain::new(params))),
         _ => None,
     }
 }
